@@ -44,7 +44,7 @@ CHECKS = {
 "C14": ("exploration", "Documents with repeated problems in equal/different neighbourhoods (also next to quotes); ignore a random subset; filter on the same text, after a JSON round trip of the ignore list, and after prepending/appending paragraphs; oracle uses an independent lint identity (fields + texts of tokens within the span and 2 chars around). The same problem in two texts differing right next to it (document start, punctuation, language) may only be hidden when the identity is equal. Through the real harper-ls: ignore one diagnostic, edit elsewhere (new identifiers, comments, prepended lines), differential against a server that ignored nothing. Through the harper.js Linter: other calls (same text in the other language, other texts, word imports) between showing a lint and ignoring it; reference = a fresh Linter with the same words.",
         "Only lints 3+ chars away from the edit boundary are judged after an edit.",
         "property-based testing (proptest); round-trip + metamorphic oracle with an independent identity relation"),
-"C15": ("exploration", "The fuzzy search of a merged dictionary offers exactly the (word, distance) pairs its children offer. Curated FST / mutable / merged back-ends must answer membership, exact membership, metadata, canonical spelling and *_str twins identically; fuzzy search on every dictionary of <=2 (thorough 3) short words over {a,b,B,'} x every query <=3 x bounds x caps exhaustively, random dictionaries and the curated dictionary against brute-force Levenshtein; dictionaries of 40-90-letter words; constructed dictionaries with typographic apostrophes in the stored words: mutable, FST built from it and merged wrappers agree; merged = union (first child wins, an unrestricted entry for the very spelling lifts a dialect restriction).",
+"C15": ("exploration", "The fuzzy search of a merged dictionary offers exactly the (word, distance) pairs its children offer, and under a cap of 1-3 never displaces the closest word nor offers anything beyond the cap-th closest (char-slice and _str entry points). Curated FST / mutable / merged back-ends must answer membership, exact membership, metadata, canonical spelling and *_str twins identically; fuzzy search on every dictionary of <=2 (thorough 3) short words over {a,b,B,'} x every query <=3 x bounds x caps exhaustively, random dictionaries and the curated dictionary against brute-force Levenshtein; dictionaries of 40-90-letter words; constructed dictionaries with typographic apostrophes in the stored words: mutable, FST built from it and merged wrappers agree; merged = union (first child wins, an unrestricted entry for the very spelling lifts a dialect restriction).",
         "Small dictionaries are built the way callers build them (MutableDictionary, then FstDictionary::from).",
         "differential + reference-model property testing (proptest) + exhaustive small-scope enumeration"),
 "C16": ("exploration", "Stateful call sequences on harper_wasm::Linter (native rlib): lint / apply_suggestion / ignore_lint / import_words / export-clear-import / rebuild from exports / set config, switching a rule that fires on a text between two lints of it, both languages, all dialects; intrinsic invariants (spans, disjointness, problem text, JSON round trips), reference splice, and a differential against an in-process model with the C14 identity for ignores.",
